@@ -36,6 +36,14 @@ const MaxSteps = 400000
 
 // Impl runs p through ExecFileOptions.
 func Impl(p gen.Program) *Outcome {
+	return ImplWith(p, func(thread *starlark.Thread, pre starlark.StringDict) (starlark.StringDict, error) {
+		return starlark.ExecFileOptions(p.Opts.FileOptions(), thread, "prog.star", p.Src, pre)
+	})
+}
+
+// ImplWith runs the main module by the given function (e.g. Program.Init) in
+// a fresh environment; loaded modules are executed from source.
+func ImplWith(p gen.Program, exec func(thread *starlark.Thread, pre starlark.StringDict) (starlark.StringDict, error)) *Outcome {
 	tr := &host.Trace{Limit: 5000}
 	pre, thread := host.Env(tr, "impl")
 	thread.SetMaxExecutionSteps(MaxSteps)
@@ -43,10 +51,16 @@ func Impl(p gen.Program) *Outcome {
 	thread.Load = func(th *starlark.Thread, module string) (starlark.StringDict, error) {
 		return implLoad(p, tr, cache, module)
 	}
-	g, err := starlark.ExecFileOptions(p.Opts.FileOptions(), thread, "prog.star", p.Src, pre)
+	g, err := exec(thread, pre)
 	o := &Outcome{Trace: tr.Events, Globals: host.Canon(g), Raw: g, Steps: thread.ExecutionSteps(), Err: err}
 	fillImplError(o, err)
 	return o
+}
+
+// Predeclared returns the names predeclared by host.Env.
+func Predeclared() func(string) bool {
+	pre, _ := host.Env(&host.Trace{}, "names")
+	return pre.Has
 }
 
 func fillImplError(o *Outcome, err error) {
